@@ -111,7 +111,7 @@ class Run:
         meta = os.path.join(self.scratch, "meta%d" % len(self.tlc_runs))
         jtmp = os.path.join(self.scratch, "jtmp")      # TLC unpacks its standard modules into java.io.tmpdir: keep that inside the scratch
         os.makedirs(jtmp, exist_ok=True)
-        cmd = ["java", "-Xss64m", "-Xmx" + xmx, "-XX:+UseParallelGC", "-Djava.io.tmpdir=" + jtmp, "-cp", JAR, "tlc2.TLC",
+        cmd = ["java", "-Xss512m", "-Xmx" + xmx, "-XX:+UseParallelGC", "-Djava.io.tmpdir=" + jtmp, "-cp", JAR, "tlc2.TLC",
                "-metadir", meta, "-config", name, "-workers", str(workers or CORES), "-seed", str(self.seed)]
         if simulate:
             cmd += ["-simulate", simulate]
